@@ -51,7 +51,7 @@ def run(ck):
     from pygaps.utilities.exceptions import CalculationError, ParameterError
     rng = ck.rng
     thorough = ck.tier == "thorough"
-    nvec = 120 if thorough else 14
+    nvec = ck.n(14, 120)
     info = ck.gen_info.get("Models", {}).get("models", {})
 
     # ------------------------------------------------------------------ 1. translator validation of the closed-form spreading pressures
@@ -143,7 +143,7 @@ def run(ck):
     ck.cov["worst_rel_err_vs_quadrature"] = {k: float(f"{v:.3g}") for k, v in worst.items()}
 
     # ------------------------------------------------------------------ 3. point isotherms: fold model (ℚ) vs the real method
-    nset = 150 if thorough else 30
+    nset = ck.n(30, 150)
     reqs, ctx = [], []
     for i in range(nset):
         n = rng.randint(2, 14)
